@@ -190,7 +190,7 @@ class Ctx:
         self.traces += n
         return rej
 
-    def validate_execs(self, module, cfg, trace_path, env=None, workers=16, allow_unfinished=False, **kw):
+    def validate_execs(self, module, cfg, trace_path, env=None, workers=16, allow_unfinished=False, multi=False, **kw):
         """stateful trace validation: every line of trace_path is one execution (x = line number);
         the trace module prints <<"DONE", x>> for a fully explained execution and
         <<"REJECT", x, {clauses}, l>> for one that cannot be continued at event l.
@@ -207,7 +207,11 @@ class Ctx:
         rej = {}
         for m in re.finditer(r'<<\s*"REJECT",\s*(\d+),\s*\{([^}]*)\}\s*,\s*(\d+)\s*>>', r.out, re.S):
             xx, cl, ll = int(m.group(1)), sorted(x.strip().strip('"') for x in m.group(2).split(",") if x.strip()), int(m.group(3))
-            if xx not in rej or ll < rej[xx][1]:        # an execution may print several rejects: keep the earliest call
+            if multi:                                   # every judged step of the execution (the judge goes on after a reject)
+                rej.setdefault(xx, [])
+                if (cl, ll) not in rej[xx]:
+                    rej[xx].append((cl, ll))
+            elif xx not in rej or ll < rej[xx][1]:      # an execution may print several rejects: keep the earliest call
                 rej[xx] = (cl, ll)
         missing = [x for x in range(1, n + 1) if x not in done and x not in rej and not allow_unfinished]
         if missing:
